@@ -6,7 +6,7 @@ import struct
 import tempfile
 import zlib
 
-from ..core import Tally  # noqa: F401
+from ..core import Tally, vary_buf  # noqa: F401
 from .. import s2c, tlc
 from .bloomfam import KEYMAP, Unmodelled, gen_tables, make_hash, strategy_fn, strategy_table
 
@@ -174,7 +174,7 @@ class Ctx:
                 s.export(path)
                 objs[o[1]] = self.cls(filepath=path, hash_function=hf)
             else:
-                objs[o[1]] = self.cls.frombytes(bytes(s), hash_function=hf)
+                objs[o[1]] = self.cls.frombytes(vary_buf(bytes(s), self.opno), hash_function=hf)
             if self.p.get("modes"):      # the format does not store the query method: re-supplied like the hash function
                 objs[o[1]].query_type = s.query_type
             return None
@@ -246,6 +246,8 @@ class Ctx:
             return
         except Exception as exc:  # noqa
             t.fail("C05" if o[0] == "rt" else "C16", "C05.load_raises" if o[0] == "rt" else "C16.returns", ENGINE, rp(raised=repr(exc)), sig)
+            if o[0] != "rt" and t.focus != "C16":
+                raise      # a valid call raised inside the library: a verdict for the property being checked too (<focus>.unexpected_exception, see s2c.safe_edge)
             return
         if o[0] == "rt":
             t.check(bytes(s) == bytes_self, "C05", "C05.reexport.cms", ENGINE, rp, dict(sig, channel=o[2]))
